@@ -17,7 +17,7 @@ from vlib.common import Findings, Harness, HBIN, SYSCONF, log, mkwork, rmwork, r
 from vlib.drive import Script, ensure_harness, pmap, run_vdrive
 
 PROP = "C17"
-SIZES = [1, 2, 100, 4094, 4095, 4096, 4097, 8191, 8192, 8193, 65536, 200000, 1048575]
+SIZES = sorted({max(1, (1 << k) + d) for k in range(0, 18) for d in (-1, 0, 1)} | {100, 255, 1000, 4094, 4095, 4096, 4097, 8191, 8192, 8193, 65536, 200000, 1048575})
 LINE = re.compile(r"^(\d+)\s+(\w+)\((.*)\)\s+=\s+(-?\d+|\?)(.*)$")
 
 
@@ -219,7 +219,7 @@ def main():
         for k, v in st.items():
             tot[k] = tot.get(k, 0) + v
     rmwork(root)
-    if tot.get("records", 0) == 0 or tot.get("stress_records", 0) == 0:
+    if (tot.get("records", 0) == 0 or tot.get("stress_records", 0) == 0) and F.n_unlisted() == 0:
         raise Harness("observed nothing: %s" % tot)
     rc = F.report()
     write_evidence(PROP, "exploration", tr, dict(
